@@ -218,20 +218,74 @@ class Oracles:
         self.check_state(t, "init", construct=True)
 
     def before(self, t):
-        if self.timeline is None:
-            self.start(t)
         g = t.graph
-        return {"snap": snap(t), "graph": g.copy(), "seg": None if t.segmentation is None else np.asarray(t.segmentation).copy()}
+        managed = list(E.RP_KEYS)
+        raw = {int(n): {k: _plain(g.nodes[n].get(k)) for k in managed} for n in g.nodes}
+        rawe = {(int(u), int(v)): _plain(g.edges[u, v].get("iou")) for u, v in g.edges}
+        act = {k for ann in t.annotators for k, (_, on) in ann.all_features.items() if on}
+        return {"snap": snap(t), "graph": g.copy(), "seg": None if t.segmentation is None else np.asarray(t.segmentation).copy(),
+                "raw": raw, "rawe": rawe, "act": act, "reg": list(t.features.keys())}
+
+    def check_toggle(self, t, line, kind, code, before):
+        """C10: registry = static + active managed keys; unknown key -> KeyError and nothing changes;
+        a disabled feature is not changed by any operation"""
+        g = t.graph
+        avail = {k for ann in t.annotators for k in ann.all_features}
+        act = {k for ann in t.annotators for k, (_, on) in ann.all_features.items() if on}
+        reg = set(t.features.keys())
+        for k in avail:
+            if (k in reg) != (k in act):
+                self.v("C10", "after `%s`: feature %s is %sregistered but %sactive" % (line, k, "" if k in reg else "not ", "" if k in act else "not "), line)
+        if kind in ("enable", "disable"):
+            names = [E.KEYNAME[int(x)] for x in line.split()[1].split(",")]
+            unknown = [k for k in names if k not in avail]
+            if unknown:
+                if code != 13:
+                    self.v("C10", "`%s` with unknown feature %s returned code %d instead of KeyError" % (line, unknown, code), line)
+                if act != before["act"] or list(t.features.keys()) != before["reg"] or first_diff(before["snap"], snap(t)) is not None:
+                    self.v("C10", "`%s` with unknown feature %s changed the tracks" % (line, unknown), line)
+            elif code != 0:
+                self.v("C10", "`%s` raised (code %d)" % (line, code), line)
+        # frozen: keys that are disabled before and after keep their values on surviving nodes / edges
+        for k in E.RP_KEYS:
+            if k in avail and k not in before["act"] and k not in act:
+                for n in g.nodes:
+                    if int(n) in before["raw"] and not _eq(_plain(g.nodes[n].get(k)), before["raw"][int(n)][k]):
+                        self.v("C10", "`%s` changed the disabled feature %s of node %d: %s -> %s" % (line, k, n, before["raw"][int(n)][k], g.nodes[n].get(k)), line)
+        if "iou" in avail and "iou" not in before["act"] and "iou" not in act:
+            for u, w in g.edges:
+                if (int(u), int(w)) in before["rawe"] and not _eq(_plain(g.edges[u, w].get("iou")), before["rawe"][(int(u), int(w))]):
+                    self.v("C10", "`%s` changed the disabled iou of edge (%d,%d)" % (line, u, w), line)
+        if kind == "update_attrs_protected":
+            key = E.KEYNAME[int(line.split()[2].split("=")[0])]
+            if (key in avail or key == "time") and code != 12:
+                self.v("C10", "`%s`: updating the managed feature %s was not refused with ValueError (code %d)" % (line, key, code), line)
 
     def after(self, t, line, kind, code, before, obs):
+        if self.timeline is None:
+            self.start(t)
+        if code == 15:
+            self.v("C03", "`%s` does not terminate" % line, line)
+            return
+        self.check_toggle(t, line, kind, code, before)
+        if kind in ("enable", "disable"):
+            # snapshots taken under different registries are not comparable: the timeline oracle
+            # (C01/C02) stops at the first switch; all state oracles stay on
+            if code == 0:
+                self.timeline_off = True
+            if obs["rf"][0] != self.nrefresh:
+                self.v("C20", "`%s` emitted refresh" % line, line)
+                self.nrefresh = obs["rf"][0]
+            self.check_state(t, line)
+            return
+        if getattr(self, "timeline_off", False):
+            self.after_no_timeline(t, line, kind, code, before, obs)
+            return
         s0, s1 = before["snap"], snap(t)
         nref = obs["rf"][0]
         emitted = nref - self.nrefresh
         self.nrefresh = nref
         payload = obs["rf"][1]
-        if code == 15:
-            self.v("C03", "`%s` does not terminate" % line, line)
-            return
         is_edit = kind in EDIT_KINDS
         # ---- C11 / C20 for refusals
         if is_edit and code >= 10:
@@ -345,6 +399,25 @@ class Oracles:
             ids = obs["aux"]
             if len(set(ids)) != len(ids) or any(i in g1.nodes for i in ids):
                 self.v("C06", "_get_new_node_ids returned %s (nodes %s)" % (ids, sorted(g1.nodes)), line)
+
+    def after_no_timeline(self, t, line, kind, code, before, obs):
+        """the per-step checks that do not need the timeline (used after a feature switch)"""
+        s0, s1 = before["snap"], snap(t)
+        nref = obs["rf"][0]
+        emitted = nref - self.nrefresh
+        self.nrefresh = nref
+        is_edit = kind in EDIT_KINDS
+        if is_edit and code >= 10:
+            self.stats["refusals_checked"] += 1
+            d = first_diff(s0, s1)
+            if d is not None:
+                self.v("C11", "refused `%s` (code %d) changed the tracks: %s" % (line, code, d), line)
+            if emitted:
+                self.v("C20", "refused `%s` emitted %d refresh" % (line, emitted), line)
+        if is_edit and code == 0 and emitted != 1:
+            self.v("C20", "successful `%s` emitted %d refresh signals" % (line, emitted), line)
+        if code != 99:
+            self.check_state(t, line)
 
     def _frame_clause(self, t, line, kind, toks, g0, g1, s0, s1):
         named = set()
